@@ -4,5 +4,7 @@ mod list;
 mod match_result;
 mod tests;
 
+#[cfg(feature = "verif-hooks")]
+pub use list::TransactionList;
 pub use match_result::MatchResult;
 pub use transaction::Transaction;
